@@ -42,6 +42,7 @@ type FuncContract struct {
 	IsIface      bool
 	Trusted      bool // contract assumed at call sites, body not verified (listed in evidence)
 	LockFree     bool
+	MakeChans    map[int][]*Clause // ghost facts fixed at the n-th make(chan) of the function
 }
 
 type GhostFunc struct {
@@ -68,6 +69,16 @@ type PkgContracts struct {
 	Defines  map[string]*Define
 	Pure     map[string]bool // package-level function variables assumed pure and non-nil
 	Lemmas   []*Lemma
+	ChanInvs []*ChanInv
+}
+
+// ChanInv: every value v sent on a channel ch whose element type is Elem satisfies Clause.
+type ChanInv struct {
+	Elem     string
+	Clause   *Clause
+	PkgPath  string
+	resolved string
+	Open     bool // "never closed" predicate instead of a value invariant
 }
 
 // Lemma is a proof obligation over the composition of real functions: the
@@ -312,6 +323,48 @@ func ParseContracts(dir, pkgPath string) (*PkgContracts, error) {
 				c.Props = cur.Props
 			}
 			cur.Loops[n] = append(cur.Loops[n], c)
+		case "chanopen":
+			// chanopen <elem type>: P(ch)  -- channels satisfying P are never closed
+			i := strings.Index(rest, ":")
+			if i < 0 {
+				return nil, fmt.Errorf("%s:%d: bad chanopen", file, l.no)
+			}
+			c, err := mkClause(kw, props, strings.TrimSpace(rest[i+1:]), l.no)
+			if err != nil {
+				return nil, err
+			}
+			pc.ChanInvs = append(pc.ChanInvs, &ChanInv{Elem: strings.TrimSpace(rest[:i]), Clause: c, PkgPath: pkgPath, Open: true})
+			cur = nil
+		case "chaninv":
+			// chaninv <elem type>: P(ch, v)
+			i := strings.Index(rest, ":")
+			if i < 0 {
+				return nil, fmt.Errorf("%s:%d: bad chaninv", file, l.no)
+			}
+			c, err := mkClause(kw, props, strings.TrimSpace(rest[i+1:]), l.no)
+			if err != nil {
+				return nil, err
+			}
+			pc.ChanInvs = append(pc.ChanInvs, &ChanInv{Elem: strings.TrimSpace(rest[:i]), Clause: c, PkgPath: pkgPath})
+			cur = nil
+		case "makechan":
+			// makechan N assume P(ch)
+			if cur == nil {
+				return nil, fmt.Errorf("%s:%d: makechan outside func", file, l.no)
+			}
+			f := strings.Fields(rest)
+			n, err := strconv.Atoi(f[0])
+			if err != nil || len(f) < 3 || f[1] != "assume" {
+				return nil, fmt.Errorf("%s:%d: makechan N assume <expr>", file, l.no)
+			}
+			c, err := mkClause(kw, props, strings.TrimSpace(rest[strings.Index(rest, "assume")+6:]), l.no)
+			if err != nil {
+				return nil, err
+			}
+			if cur.MakeChans == nil {
+				cur.MakeChans = map[int][]*Clause{}
+			}
+			cur.MakeChans[n] = append(cur.MakeChans[n], c)
 		case "typeassume":
 			i := strings.Index(rest, ":")
 			if i < 0 {
